@@ -14,6 +14,19 @@ HARNESS = os.path.join(VERIF, "harness")
 JAR = "/opt/veriftools/tla/tla2tools.jar:/opt/veriftools/tla/CommunityModules-deps.jar"
 NCPU = os.cpu_count() or 4
 
+
+def maxpar():
+    """Parallelism cap: VERIF_MAXPAR or the file /tmp/verif_maxpar (used while several checks are
+    being developed side by side on one machine); default = number of CPUs."""
+    try:
+        if os.environ.get("VERIF_MAXPAR"):
+            return max(1, int(os.environ["VERIF_MAXPAR"]))
+        if os.path.exists("/tmp/verif_maxpar"):
+            return max(1, int(open("/tmp/verif_maxpar").read().strip()))
+    except Exception:
+        pass
+    return NCPU
+
 GOENV = dict(GOFLAGS="-mod=mod", GOPROXY="off", GOSUMDB="off", GOTOOLCHAIN="local")
 
 
@@ -176,9 +189,8 @@ class Ctx:
         open(os.path.join(wd, root + ".cfg"), "w").write(cfg)
         if workers is None:
             workers = min(NCPU, 8)
-        cmd = ["java"]
-        if heap:
-            cmd.append("-Xmx%s" % heap)
+        workers = max(1, min(workers, maxpar()))
+        cmd = ["java", "-Xmx%s" % (heap or "6g")]
         cmd += ["-XX:+UseParallelGC", "-Xss64m"]
         if dfs:
             cmd.append("-Dtlc2.tool.queue.IStateQueue=StateDeque")
@@ -362,6 +374,7 @@ class Ctx:
         if binp is None:
             binp = self.go_build(pkg, mapping, race=race, name=label, tags=tags)
         pkgdir = os.path.join(REPO, pkg.lstrip("./"))
+        shards = max(1, min(shards, maxpar()))
         procs = []
         t0 = time.time()
         for i in range(shards):
@@ -524,7 +537,9 @@ class Ctx:
                 seen.setdefault(d["key"], []).append(d)
             for i, (key, ds) in enumerate(sorted(seen.items())):
                 d = ds[0]
-                rp = os.path.join(self.build, "replay-%d.json" % i)
+                rdir = os.path.join(VERIF, "build", "replays")   # survives the next run's wipe of build/<pid>
+                os.makedirs(rdir, exist_ok=True)
+                rp = os.path.join(rdir, "%s-%s-%d.json" % (self.pid, self.tier, i))
                 json.dump(dict(property=self.pid, key=key, msg=d["msg"], step=d["step"], source=d["source"],
                                label=d.get("label"), case=d["case"], count=len(ds), seed=self.seed, tier=self.tier),
                           open(rp, "w"), indent=1)
